@@ -802,6 +802,11 @@ def build_all(ev, tools):
             m = re.search(r'File "\./([^"]+)", line (\d+)[^\n]*\n(?:.*\n){0,3}?Error:[^\n]*(?:\n[^\n]*){0,4}', audit["log"] + "\n" + clog)
             if m:
                 problems.append("first coq error: " + m.group(0)[:600].replace("\n", " | "))
+    if ev.prop == "C17":
+        # Layer R treats every FnOnceQueue as a list; glue_queue_ops composes that with flat_refines_boxed
+        gprobs, glue = vlib.glue_audit("queues")
+        problems += ["proof audit: " + p for p in gprobs]
+        ev.cov["cross_layer_glue"] = glue
     ev.cov["obligations"] = vlib.count_theorems(Q_FILES)
     ev.cov["discharged"] = ev.cov["obligations"] if audit["ok"] else 0
     ev.cov["property_theorems"] = PINS
